@@ -339,6 +339,41 @@ func runC04(c *kit.Ctx) {
 		c.Check(okS, hre, "servererror-takes-connection-down", hre.Pos(), "ServerError calls clientDown(rc, reg)", "ServerError no longer takes the connection (and all its regions) down")
 	}
 
+	// clientDown always deals with the region the error was seen on, whatever the cache says
+	if cd := c.Anchor("", "client", "clientDown"); cd != nil {
+		regP := paramOfType(cd, "/hrpc.RegionInfo", 0)
+		e := kit.PathFromEntry(cd, kit.PathQuery{Stop: func(x ssa.Instruction) bool {
+			call, ok := x.(*ssa.Call)
+			return ok && kit.CalleeName(call) == hrpcRI+"MarkUnavailable" && call.Call.Value == ssa.Value(regP)
+		}})
+		c.Check(e == nil && regP != nil, cd, "failed-region-always-marked", cd.Pos(), "every path through clientDown marks the region the error was seen on (even if the connection is no longer in the cache)", "clientDown can return without marking the region whose request failed: if the connection was already purged by another request, that region keeps a dead connection forever")
+	}
+	// a failed establishment attempt re-resolves the location before the next one
+	{
+		var addrAlloc *ssa.Alloc
+		if ap := paramOfType(est, "string", 0); ap != nil {
+			addrAlloc = spillOf(ap)
+		}
+		dials := kit.Calls(est, hrpcRC+"Dial")
+		sleeps := kit.Calls(est, sleepName)
+		if addrAlloc == nil || len(dials) != 1 || len(sleeps) != 1 {
+			c.Unk(est, "relookup-shape", est.Pos(), "establishRegion no longer has one Dial, one back-off call and an address variable")
+		} else {
+			e := kit.PathFrom(dials[0], kit.PathQuery{
+				Target: func(x ssa.Instruction) bool { return x == sleeps[0].(ssa.Instruction) },
+				Stop: func(x ssa.Instruction) bool {
+					st, ok := x.(*ssa.Store)
+					if !ok || st.Addr != ssa.Value(addrAlloc) {
+						return false
+					}
+					k, ok := st.Val.(*ssa.Const)
+					return ok && k.Value != nil && k.Value.ExactString() == `""`
+				},
+			})
+			c.Check(e == nil, est, "failed-attempt-relooks-up", dials[0].Pos(), "every failed attempt clears the address so that the next one looks the region up again", "an establishment attempt can fail and be retried against the same address without consulting hbase:meta again: a region that moved is never found: "+c.BlockPath(e))
+		}
+	}
+
 	// ---- R5 ---------------------------------------------------------------
 	c.StartRule("R5", "TableNotFound is not retried", 2)
 	tnf := p.Global("", "TableNotFound")
